@@ -288,7 +288,8 @@ class BaseReader:
             z = da.from_delayed(delayed_read(offset, n, **kwargs),
                                 dtype=self.dtype, shape=_out_shape)
 
-            default_chunks = (-1,) + ("auto",) * len(self.sample_shape)
+            auto = "auto" if n > 0 else -1
+            default_chunks = (-1,) + (auto,) * len(self.sample_shape)
             z = z.rechunk(kwargs.get("chunks", default_chunks))
         else:
             z = self._read_array(offset, n, **kwargs)
